@@ -100,6 +100,9 @@ def step (st : St) (ts : List String) : St × String :=
     let (lo, hi, n, mean, sd) := (pF lo, pF hi, pN n, pF mean, pF sd)
     let k := evalRhs extF .gaussCdfNorm sd
     (st, fFs (wavelengths lo hi n ++ psdList (gaussBinPsd erfF mean k (delta lo hi n)) lo hi n))
+  | ["specd", lo, hi, n] =>
+    let (lo, hi, n) := (pF lo, pF hi, pN n)
+    (st, fFs (wavelengths lo hi n ++ psdList (fun _ _ => 1.0 / (hi - lo)) lo hi n))
   | _ =>
     match st with
     | none => (st, "noObject")
